@@ -71,6 +71,7 @@ fn build_vm(w: &Value) -> Result<RootedThread, Violation> {
     };
     vm.get_database_mut()
         .set_implicit_prelude(w["prelude"].as_bool().unwrap_or(false));
+    vm.get_database_mut().set_run_io(true);
     externs::install(&vm);
     let fut = vm.load_script_async("simtypes", gen::TYPES_MODULE);
     match exec::drive(fut, 10_000_000, |_| {}) {
@@ -78,7 +79,7 @@ fn build_vm(w: &Value) -> Result<RootedThread, Violation> {
         _ => return Err(Violation::new("harness", "simtypes did not load")),
     }
     // the primitive modules are part of the environment
-    let warm = format!("{}let _ = import! sim\n0\n", gen::PREAMBLE);
+    let warm = format!("{}let _ = import! sim\nlet _ = import! std.io.prim\nlet _ = import! std.thread.prim\n0\n", gen::PREAMBLE);
     let fut = vm.run_expr_async::<OpaqueValue<RootedThread, Hole>>("warmup", &warm);
     match exec::drive(fut, 10_000_000, |_| {}) {
         exec::Outcome::Ready(Ok(_), _) => {}
@@ -211,6 +212,25 @@ impl Engine for C14 {
                     let dep = rng.below(nmods);
                     let src = format!("let sim = import! sim\nlet d = import! p{}\nlet t = sim.tick \"x{}\"\n{{ v = d.v #Int+ {} #Int+ (t #Int- t) }}\n", dep, extra, extra);
                     ops.push(json!({ "op": "load", "name": format!("x{}", extra), "src": src, "imports": [dep] }));
+                } else if roll < 75 {
+                    // a value computed on another gluon thread (spawn_on) or on two threads at
+                    // once (join) and moved back to this one
+                    let mk = |rng: &mut Rng| {
+                        let mut g = Gen::new(rng, 30);
+                        g.allow_match = false;
+                        g.max_loop = 8;
+                        let t = g.data_ty(2);
+                        g.expr(&t, 3)
+                    };
+                    let a = mk(rng);
+                    let b = mk(rng);
+                    let body = if rng.chance(1, 2) {
+                        format!("io.flat_map (\\t -> io.flat_map (\\fut -> fut) (th.spawn_on t (io.flat_map (\\u -> io.wrap ({})) (io.wrap ())))) (th.new_thread ())", a)
+                    } else {
+                        format!("th.join (io.flat_map (\\u -> io.wrap ({})) (io.wrap ())) (io.flat_map (\\u -> io.wrap ({})) (io.wrap ()))", a, b)
+                    };
+                    let src = format!("{}let io = import! std.io.prim\nlet th = import! std.thread.prim\n{}\n", gen::PREAMBLE, body);
+                    ops.push(json!({ "op": "burst", "src": src, "imports": [] }));
                 } else if roll < 85 {
                     let ty = {
                         let mut g = Gen::new(rng, 4);
